@@ -171,6 +171,12 @@ def decide(prop: str, tier: str, seed: int) -> int:
                 theorem_info.append({"theorem": th, "checked": True,
                                      "assumptions": ax or "Closed under the global context"})
     log(f"[{prop}] coq: {sum(1 for o in obligs if o.ok)}/{len(obligs)} obligations so far ({dt:.0f}s make)")
+    coqchk_info = None
+    if tier == "thorough" and ok:
+        ck_ok, ck_axioms, ck_dt = coqrun.coqchk(props_file)
+        coqchk_info = {"ok": ck_ok, "axioms": ck_axioms or "<none>", "seconds": round(ck_dt)}
+        obligs.append(Obligation(f"coqchk:{props_file}", ck_ok, "" if ck_ok else "coqchk rejected the compiled development"))
+        log(f"[{prop}] coqchk -o: {'ok' if ck_ok else 'FAILED'}, axioms: {ck_axioms or '<none>'} ({ck_dt:.0f}s)")
 
     # 3. correspond ------------------------------------------------------------
     res = Result()
@@ -257,6 +263,7 @@ def decide(prop: str, tier: str, seed: int) -> int:
         "checker_cmd": f"cd /verif/coq && make -f Makefile.coq {target} && coqc -Q . TS {props_file}   (driven by ./check {prop} --tier {tier})",
         "trusted_base": getattr(mod, "TRUSTED", []),
         "theorems": theorem_info,
+        "coqchk": coqchk_info,
         "obligation_list": [{"name": o.name, "ok": o.ok} for o in obligs],
         "evaluations": res.evaluations,
         "distinct_nontrivial": len(res.nontrivial),
